@@ -489,8 +489,15 @@ func checkMain(args []string) int {
 			trusted = append(trusted, "assumed contract: "+k+" ("+c.File+")")
 		}
 	}
+	inRun := map[string]bool{}
+	for _, k := range work {
+		inRun[k] = true
+	}
 	for _, k := range v.db.sortedFuncKeys() {
 		c := v.db.Funcs[k]
+		if !c.Used && !inRun[k] {
+			continue // neither verified nor called in this run
+		}
 		for _, a := range c.Assumed {
 			trusted = append(trusted, "assumed clause in the contract of "+k+": "+a.Src)
 		}
@@ -670,7 +677,16 @@ func runBounded(verifDir, repo string, br BoundedRun) (map[string]interface{}, [
 			}
 		}
 	}
-	if !strings.Contains(out, "BOUNDED-DONE") {
+	passed := false // go test prints only the "ok" line for a passing test
+	for _, ln := range strings.Split(out, "\n") {
+		if strings.HasPrefix(ln, "ok ") || strings.HasPrefix(ln, "ok\t") {
+			passed = true
+		}
+	}
+	if strings.Contains(out, "FAIL") || strings.Contains(out, "panic:") {
+		passed = false
+	}
+	if !strings.Contains(out, "BOUNDED-DONE") && !passed {
 		res["error"] = "the bounded run did not complete: " + tail(out, 400)
 		return res, cases, tail(out, 400)
 	}
